@@ -4,7 +4,7 @@
 #  (2) with the demonstration test added: it fails with the change, and everything passes without the change,
 #  then copy patch + demonstration to /verif/seeded/<name>/ . Does not touch /repo.
 set -u
-ID=$1; NAME=${2:-$ID}; W=/tmp/seed/$ID; OUT=/verif/seeded/$NAME
+ID=$1; NAME=${2:-$ID}; W=${SEEDBASE:-/tmp/seed}/$ID; OUT=/verif/seeded/$NAME
 cd "$W" || exit 2
 [ -f seed/patch.diff ] || { echo "no seed/patch.diff"; exit 2; }
 pristine() { git checkout -q -- . ; git clean -fdq -- src; }
@@ -18,7 +18,7 @@ echo "$A" | grep -q "41 passed; 0 failed" || OK=no
 if [ -f seed/demo_test.diff ]; then
   git apply seed/demo_test.diff || { echo "demo test does not apply on top of the change"; OK=no; }
   B=$(res); echo "change + demo test:     $B"
-  echo "$B" | grep -qE "41 passed; [1-9][0-9]* failed" || OK=no
+  echo "$B" | grep -qE "4[1-9] passed; [1-9][0-9]* failed" || OK=no
   pristine; git apply seed/demo_test.diff
   C=$(res); echo "demo test, no change:   $C"
   echo "$C" | grep -qE "4[2-9] passed; 0 failed" || OK=no
